@@ -198,6 +198,16 @@ def run_cases(modname, cases, mod, workers=None, progress=True, budget_s=None):
                     results[i] = (c, {"verdict": "skipped", "key": "time-budget", "what": "not run: tier time budget used up"})
                     continue
                 res, kind, info = w.run(i, c, float(c.get("_timeout", timeout)) if isinstance(c, dict) else timeout)
+                if res is None and (kind.startswith("crash") or kind == "wall"):
+                    # a worker that dies or stalls under load may do so because of an earlier case (heap
+                    # damage in a codec library) or of the load: the verdict needs the case to fail again,
+                    # alone, in a fresh worker
+                    first = kind
+                    res, kind, info2 = w.run(i, c, float(c.get("_timeout", timeout)) if isinstance(c, dict) else timeout)
+                    if res is not None:
+                        res.setdefault("obs", {})["abnormal_end_not_reproduced:" + first.split(":")[0]] = 1
+                    else:
+                        info = info2 or info
                 if res is None:
                     if hasattr(mod, "on_abnormal"):
                         res = mod.on_abnormal(c, kind, info)
